@@ -126,6 +126,25 @@ def check_eq(item):
             # children rendered through contract calls are dependencies too
             extra = sorted(reads - compared)
             ok = not extra
+            # a slot that enters the hash through str()/repr() must have a textual form of its own: the default
+            # object repr contains the address, so equal objects would hash differently
+            ident = []
+            for o in hrun.outcomes:
+                hrun.ex.st = o.state
+                for ef, _g, _l in flat_calls(o.state.effects):
+                    if ef.method not in ("__str__", "__repr__") or ef.recv is None:
+                        continue
+                    tg = ef.recv_tags or frozenset()
+                    for t in sorted(tg):
+                        c2 = next((c for c in r.classes.values() if c.short == t), None)
+                        if c2 is None:
+                            continue
+                        res2 = c2.resolve(ef.method) or (c2.resolve("__repr__") if ef.method == "__str__" else None)
+                        if not res2 or res2[0] != "func":
+                            ident.append(f"{recv_key(hrun.ex, ef, o.state)} ({t} defines no {ef.method})")
+            if ident:
+                ok = False
+                extra = extra + sorted(set(ident))
             obs.append(Obligation(PROP, f"{hres[1].short}@{name}|eq/hash", "eq/hash", hres[1].short,
                                   PROVED if ok else REFUTED,
                                   detail=f"hash depends on {sorted(reads)}; equality compares {sorted(compared)}",
